@@ -44,6 +44,7 @@ properties! {
 
 fn main() {
     engine::install_panic_hook();
+    engine::start_watchdog();
     let args: Vec<String> = std::env::args().collect();
     if args.len() < 2 {
         eprintln!("usage: vcheck <Cxx> quick|thorough | vcheck replay <file>");
